@@ -28,6 +28,7 @@ RULE = (
     "window (batch size, n of nlargest/nsmallest, 1 per source for merge, lead of the fastest over the slowest live "
     "child for tee, 0 otherwise). Non-trivial: >=50 items passed through; distinct = distinct (tool, parameters, "
     "lengths, flavours, progress pattern)."
+    " Extensions of rounds 9-12: any tee child may be the survivor; long islice strides; the tee object closed with lagging children while references are kept."
 )
 COMPONENTS = COMPONENTS_BASE
 ASSUMPTIONS = [
